@@ -483,6 +483,16 @@ func (c *cluster) startNode(n *cnode) {
 	}()
 	if err != nil {
 		c.h.rec("X %d %d newraft-error", n.id, n.life)
+		lo, _ := n.st.InmemStore.FirstIndex()
+		hi, _ := n.st.InmemStore.LastIndex()
+		var sn []string
+		n.snaps.mu.Lock()
+		for _, x := range n.snaps.snaps {
+			sn = append(sn, fmt.Sprintf("(%d,%d)", x.meta.Index, x.meta.Term))
+		}
+		n.snaps.mu.Unlock()
+		_ = os.WriteFile(fmt.Sprintf("%s.newraft.%d.%d.log", *flagOut, n.id, n.life),
+			[]byte(fmt.Sprintf("error: %v\nstore first=%d last=%d snapshots=%v mono=%v track=%v\n", err, lo, hi, sn, n.st.mono, c.track)), 0o644)
 		n.up = false
 		return
 	}
